@@ -93,6 +93,10 @@ def callers():
     out.append(('admin-uppercase', 'u_adm2:' + OWN, {'X-Roles': 'Admin'}, {'admin'}, OWN, False))
     out.append(('admin-system-scope', 'u_adm3:' + OWN, {'X-Roles': 'admin', 'OpenStack-System-Scope': 'all'}, {'admin'}, None, True))
     out.append(('service-domain-scope', 'u_svc2:' + OWN, {'X-Roles': 'service', 'X-Domain-Id': 'dom1'}, {'service'}, OWN, True))
+    # an X-Roles header that is PRESENT and empty says "no roles" - also for the user name the middleware would otherwise
+    # give the admin role
+    out.append(('admin-token-empty-roles', 'admin', {'X-Roles': ''}, set(), 'admin', False))
+    out.append(('admin-user-empty-roles', 'admin:' + OWN, {'X-Roles': ''}, set(), OWN, False))
     return out
 
 
